@@ -73,6 +73,12 @@ def serField (id : Nat) (v : TVal) : Bytes := u8 v.tag :: be16 id ++ ser v
 def isCode (n : Nat) : Bool :=
   n == 2 || n == 3 || n == 4 || n == 6 || n == 8 || n == 10 || n == 11 || n == 12 || n == 13 || n == 14 || n == 15
 
+/-- what every Thrift reader requires of an element / key / value type code: a non-negative `int8`.
+    (For a non-empty container the elements carry the declared code, which is then a protocol code;
+    the code of an *empty* container is looked at by no reader, frugal's included — `codesStrict`
+    below is the stronger condition that frugal's own output satisfies, C02.) -/
+def codeOK (n : Nat) : Bool := n < 128
+
 /- Well-formedness: every scalar fits its width, every length/count fits in a positive
     int32, ids fit 16 bits, container elements carry the declared element type. -/
 mutual
@@ -85,9 +91,9 @@ def wf : TVal → Bool
   | .i64 n => n < 18446744073709551616
   | .str s => s.length < 2147483648
   | .strct fs => wfFields fs
-  | .map kt vt es => isCode kt && isCode vt && es.length < 2147483648 && wfEntries kt vt es
-  | .set et xs => isCode et && xs.length < 2147483648 && wfList et xs
-  | .list et xs => isCode et && xs.length < 2147483648 && wfList et xs
+  | .map kt vt es => codeOK kt && codeOK vt && es.length < 2147483648 && wfEntries kt vt es
+  | .set et xs => codeOK et && xs.length < 2147483648 && wfList et xs
+  | .list et xs => codeOK et && xs.length < 2147483648 && wfList et xs
 def wfFields : List (Nat × TVal) → Bool
   | [] => true
   | (id, v) :: r => id < 65536 && wf v && wfFields r
@@ -97,6 +103,25 @@ def wfEntries (kt vt : Nat) : List (TVal × TVal) → Bool
 def wfList (et : Nat) : List TVal → Bool
   | [] => true
   | v :: r => v.tag == et && wf v && wfList et r
+end
+
+/- every container's element / key / value code is a protocol type code, empty containers included -/
+mutual
+def codesStrict : TVal → Bool
+  | .strct fs => codesStrictFields fs
+  | .map kt vt es => isCode kt && isCode vt && codesStrictEntries es
+  | .set et xs => isCode et && codesStrictList xs
+  | .list et xs => isCode et && codesStrictList xs
+  | _ => true
+def codesStrictFields : List (Nat × TVal) → Bool
+  | [] => true
+  | (_, v) :: r => codesStrict v && codesStrictFields r
+def codesStrictEntries : List (TVal × TVal) → Bool
+  | [] => true
+  | (k, v) :: r => codesStrict k && codesStrict v && codesStrictEntries r
+def codesStrictList : List TVal → Bool
+  | [] => true
+  | v :: r => codesStrict v && codesStrictList r
 end
 
 /- nesting depth of a value: a scalar is 0, a struct or container is one more than its
